@@ -284,6 +284,8 @@ func runC14(r *rep.R) {
 		}
 	}
 	shapes = append(shapes, recShape{Type: 1, Enc: 1, NChar: 1}, recShape{Type: 1, Enc: 2, NChar: 1}, recShape{Type: 1, Enc: 3, NChar: 16, Pad: 0}, recShape{Type: 1, Enc: 2, NChar: 21}, recShape{Type: 1, Enc: 3, NChar: 6, Pad: 3})
+	// bodies at and next to the 64-byte maximum
+	shapes = append(shapes, recShape{Type: 1, Enc: 3, NChar: 16, Pad: 4}, recShape{Type: 1, Enc: 3, NChar: 16, Pad: 5}, recShape{Type: 1, Enc: 1, NChar: 31, Pad: 5})
 	shapes = append(shapes, recShape{Type: 0x02}, recShape{Type: 0x11}, recShape{Type: 0x12}, recShape{Type: 0xC0})
 	layouts := func(n int) [][]uint16 {
 		out := [][]uint16{}
